@@ -34,3 +34,5 @@ func init() {
 }
 
 var dbgHook func(w *World)
+
+var boundsDebug = os.Getenv("VCHECK_BOUNDS_DEBUG") != ""
